@@ -1,11 +1,19 @@
 #!/bin/bash
-# tools/seedall.sh : re-confirms every seeded change under /verif/seeded and re-runs the relevant
-# quick checks against it with the harness as it is now; rewrites each meta.json and the DESIGN table.
+# tools/seedall.sh [lanes=2] : re-confirms every seeded change under /verif/seeded and re-runs the
+# relevant quick checks against it with the harness as it is now; rewrites each meta.json and the
+# DESIGN table. C09 (timing) is only run for the seeds that target C09.
 cd /verif
+LANES="${1:-2}"
 cp tools/seedcheck.sh .bin/seedcheck.run.sh
-for d in seeded/*/; do
-  n=$(basename "$d")
-  echo "=== $n"
-  bash .bin/seedcheck.run.sh "$d" "$n" 2>&1 | grep -a "RESULT\|INVALID\|INCONCLUSIVE" | cut -c1-220
-done
+SQLI="C01 C03 C06 C08 C10 C12 C14 C16 C18"; XSS="C02 C04 C07 C11 C13 C15 C17 C19"
+one() {
+  n="$1"; d="seeded/$n"
+  ids="C05 C20"
+  grep -q '^+++ b/sqli' "$d/patch.diff" && ids="$SQLI $ids"
+  grep -q '^+++ b/\(xss\|html5\)' "$d/patch.diff" && ids="$XSS $ids"
+  case "$n" in C09*) ids="$ids C09";; esac
+  bash .bin/seedcheck.run.sh "$d" "$n" $ids 2>&1 | grep -a "RESULT\|INVALID" | cut -c1-200
+}
+export -f one; export SQLI XSS
+ls seeded | xargs -P "$LANES" -I{} bash -c 'one {}'
 python3 tools/mkseedtable.py
